@@ -115,6 +115,61 @@ func c18Check(root string, doc []byte) (res fw.Result) {
 			}
 		}
 	}
+	// addresses written as text by a caller: whatever the parsers accept for
+	// a listed package, with hostile sub-paths, must not lead a lookup out of
+	// the root either
+	hostileSubs := []string{"../../outside", "..", "a/../../..", "/etc/passwd", "./..", "a/../../../x", "%2e%2e/%2e%2e/x", "..%2Fx"}
+	try := func(text string, final bool) *fw.Result {
+		var src sourceaddrs.FinalSource
+		var perr error
+		if pn, pv := fw.Try(func() {
+			if final {
+				src, perr = sourceaddrs.ParseFinalSource(text)
+			} else {
+				var s sourceaddrs.Source
+				s, perr = sourceaddrs.ParseSource(text)
+				if rs, ok := s.(sourceaddrs.RemoteSource); ok && perr == nil {
+					src = rs
+				} else if perr == nil {
+					perr = fmt.Errorf("not final")
+				}
+			}
+		}); pn {
+			r := viol("lookup-panic", "parsing %q panicked: %s", text, pv)
+			return &r
+		}
+		res.Evals++
+		if perr != nil || src == nil {
+			return nil
+		}
+		var lp string
+		var lerr error
+		if pn, pv := fw.Try(func() { lp, lerr = b.LocalPathForSource(src) }); pn {
+			r := viol("lookup-panic", "LocalPathForSource(%q) panicked: %s", text, pv)
+			return &r
+		}
+		if lerr == nil && !inside(lp) {
+			r := viol("lookup-outside-root", "the address %q is accepted by the parser and its lookup returned %q, not inside the bundle root %q", text, lp, absRoot)
+			return &r
+		}
+		return nil
+	}
+	for _, pkg := range b.RemotePackages() {
+		for _, sub := range hostileSubs {
+			if r := try(pkg.String()+"//"+sub, false); r != nil {
+				return *r
+			}
+		}
+	}
+	for _, rp := range b.RegistryPackages() {
+		for _, v := range b.RegistryPackageVersions(rp) {
+			for _, sub := range hostileSubs {
+				if r := try(rp.String()+"@"+v.String()+"//"+sub, true); r != nil {
+					return *r
+				}
+			}
+		}
+	}
 	// inverse property for paths inside package directories
 	cwd, _ := os.Getwd()
 	for d := range dirs {
